@@ -163,6 +163,13 @@ def singleEntry (s : St) (direct : List String) : Bool :=
   let targets := s.specs.flatMap (·.targets)
   targets.all (fun t => (targets.filter (· == t)).length ≤ 1 && !direct.contains t)
 
+/-- the state after a history of operations -/
+def run (ops : List Op) : St := ops.foldl (fun s op => (step s op).1) {}
+
+/-- the topics events were collected on directly during a history -/
+def directs (ops : List Op) : List String :=
+  ops.filterMap (fun op => match op with | .collect T _ => some T | _ => none)
+
 /-- Acyclicity, witnessed by a fixed order of the topics: publish edges only go to topics later in `order`
 (the harness generates specs over `harnessOrder`). -/
 def forwardOnly (order : List String) (specs : List Spec) : Bool :=
